@@ -271,12 +271,22 @@ TEXT = {
           "chain with every single-field mutation and wrongly signed momentums) with model-free monitors, including "
           "persistence round trips of the consensus store (protobuf + leveldb, evicted LRU, re-opened directory), a node "
           "restarted on its persistent consensus database every round, and every election repeated while other goroutines "
-          "draw from the process-wide math/rand generator (regenerated fact: no reference to it in the deciding packages).",
+          "draw from the process-wide math/rand generator (regenerated fact: no reference to it in the deciding packages). "
+          "Consensus store (Props.C05Store, shared with C11): a proto3 codec model of ElectionData / Point on the wire model of "
+          "C13 with round-trip theorems (election_roundtrip, point_roundtrip: two different producers, weight 0 = empty bytes, "
+          "empty maps), storage.DB as a key-value map under the real keys with the LRUs in front (cache_transparent, "
+          "restart_same_answer, store_get through any later evictions / restarts, key injectivity and keys_disjoint with the "
+          "regenerated prefix bytes), the byte string of a Point shown NOT canonical (Marshal ranges over a map) while its "
+          "decoded value is, schema / assignment / cache-size facts pinned, negative witnesses for an aliasing Marshal and a "
+          "skipping Unmarshal; tied by cs-* lines: the model decodes the REAL bytes, re-encodes them, computes the keys and "
+          "replays the store/get/delete/restart sequence performed on real storage.DB instances.",
   "design_ref": "§3 C05",
   "note": "rand.Perm / sort.Sort / hashes / ed25519 / momentum VM are parameters or oracle values with explicit hypotheses; "
           "pillar weights (ComputePillarDelegations) are taken from the real code; cross-node schedule equality after "
           "restart/reorg is by the cold-vs-cached-vs-restarted comparison on one node plus the prefix theorem, not by a multi-node run; "
-          "persistence and independence from process-wide randomness are monitors and a regenerated AST fact, not model theorems.",
+          "independence from process-wide randomness is monitors and a regenerated AST fact, not a model theorem; the consensus "
+          "store theorems assume that no caller mutates an object held by the LRU (Store.Coherent - checked on the real cached "
+          "objects by the cs-pt-dec / cs-db lines), names are ASCII (proto3 UTF-8 validation is outside), leveldb is C08.",
   "technique": "Lean 4 proof (induction, permutation reasoning) + regenerated facts (constants, verifier check order from "
                "the AST) + differential correspondence + model-free monitors",
  },
@@ -392,7 +402,10 @@ TEXT = {
   "design_ref": "§3 C11",
   "note": "Credited amounts enter the cursor model as observed inputs (arithmetic proved separately); node-independence "
           "of the consensus statistics: the aggregation of period points into an epoch point is a Lean function that counts "
-          "every momentum once (Props.C11Points), compared with folds over real cached storage.Point objects; that a node's "
+          "every momentum once (Props.C11Points), compared with folds over real cached storage.Point objects; what a node "
+          "stores of a point is what it or a restarted node reads back (Props.C05Store: point_roundtrip incl. weight-0 pillars, "
+          "store_get_point, restart_same_answer_point, point_value_canonical; cs-pt-* lines decode the real bytes and compare "
+          "the cached period points after the real folds with the decode of the stored bytes); that a node's "
           "answers do not depend on what it was asked before is correspondence (each question twice, against a fresh "
           "consensus instance, statistics against the chain, followers synced one by one, in batches, with restarts), not a "
           "theorem. Known finding F14: the origin/accelerator-table liquidity Update consumes one epoch without reward when "
